@@ -73,7 +73,15 @@ SmallNum == { ABin(">", Call1("int", AVal), AInt(2)), ABin("=", Call1("strlen", 
 Conn == {"&", "|", "and", "or"}
 Combos(X) == { ABin(op, l, r) : op \in Conn, l \in X, r \in X } \cup { ANot(x) : x \in X }
 
+\* chains of operators of one binding strength group from the left: (v - 1) - 2, (v / 2) / 2, (8 / 2) * v, (n - 1) + 1
+IV == Call1("int", AVal)
+NumChains == { ABin("=", ABin("-", ABin("-", IV, AInt(1)), AInt(2)), AInt(0)), ABin(">=", ABin("/", ABin("/", IV, AInt(2)), AInt(2)), AInt(1)),
+               ABin(">", ABin("-", ABin("-", AInt(10), IV), AInt(1)), AInt(2)), ABin("=", ABin("+", ABin("-", Call1("strlen", AKey), AInt(1)), AInt(1)), AInt(2)),
+               ABin("=", ABin("*", ABin("/", AInt(8), AInt(2)), IV), AInt(8)), ABin("<", ABin("-", ABin("*", IV, AInt(2)), ABin("*", AInt(1), AInt(3))), AInt(2)),
+               ABin("=", ABin("+", ABin("+", AKey, AStr(<<45>>)), AVal), AStr(<<97, 45, 49>>)) }
 C01Cases ==
+  { [st |-> Select(<<>>, w, <<>>, <<>>, NoLim), sid |-> "I"] : w \in NumChains \cup { ABin(op, x, y) : op \in {"&", "or"}, x \in NumChains, y \in {ABin("^=", AKey, AStr(a))} } }
+  \cup
   { [st |-> Select(<<>>, w, <<>>, <<>>, NoLim), sid |-> "T"] : w \in StrAtoms \cup Combos(SmallStr) }
   \cup { [st |-> Select(<<>>, w, <<>>, <<>>, NoLim), sid |-> "I"] : w \in NumAtoms(NumLefts) \cup Combos(SmallNum \cup SmallStr) }
   \cup { [st |-> Select(<<>>, w, <<>>, <<>>, NoLim), sid |-> "F"] : w \in NumAtoms(FltLefts) }
@@ -159,7 +167,14 @@ J5 == VObj(<<VMem(a, JN(12)), VMem(<<108>>, VList(<<>>)), VMem(<<111>>, VObj(<<V
 J6 == VObj(<<VMem(a, VFlt(5, 1)), VMem(bb, VStr(<<>>)), VMem(<<108>>, VList(<<VList(<<JN(1)>>), VObj(<<VMem(a, JN(0))>>)>>))>>)
 \* a document may be stored with white space around it
 SPDW(k, doc, pre, post) == [k |-> k, v |-> pre \o RenderJson(doc) \o post, doc |-> doc]
-StoreJ == << SPD(<<106, 49>>, J1), SPD(<<106, 50>>, J2), SPD(<<106, 51>>, J3), SPD(<<106, 52>>, J4), SPD(<<106, 53>>, J5), SPD(<<106, 54>>, J6),
+\* an integer text member, then (in key order) members of the other JSON kinds: Boolean, list, object, number, absent
+J55 == VObj(<<VMem(a, VStr(<<55>>)), VMem(bb, VStr(<<50, 46, 53>>))>>)
+J56 == VObj(<<VMem(a, VBool(TRUE)), VMem(bb, VList(<<JN(1)>>))>>)
+J57 == VObj(<<VMem(a, VStr(<<49, 50>>)), VMem(bb, VStr(<<51>>))>>)
+J58 == VObj(<<VMem(a, VObj(<<>>)), VMem(bb, JN(4))>>)
+J59 == VObj(<<VMem(a, VStr(<<56>>))>>)
+StoreJ == << SPD(<<106, 49>>, J1), SPD(<<106, 50>>, J2), SPD(<<106, 51>>, J3), SPD(<<106, 52>>, J4), SPD(<<106, 53>>, J5),
+             SPD(<<106, 53, 53>>, J55), SPD(<<106, 53, 54>>, J56), SPD(<<106, 53, 55>>, J57), SPD(<<106, 53, 56>>, J58), SPD(<<106, 53, 57>>, J59), SPD(<<106, 54>>, J6),
              SPDW(<<106, 55>>, J2, <<32>>, <<>>), SPDW(<<106, 56>>, J1, <<10, 32>>, <<32, 10>>), SPDW(<<106, 57>>, J5, <<9>>, <<>>) >>
 JV == Call1("json", AVal)
 JsonExprs == { JV, AIdx(JV, AStr(a)), AIdx(JV, AStr(bb)), AIdx(JV, AStr(<<108>>)), AIdx(AIdx(JV, AStr(<<108>>)), AInt(1)), AIdx(AIdx(JV, AStr(<<108>>)), AInt(0)),
@@ -167,7 +182,7 @@ JsonExprs == { JV, AIdx(JV, AStr(a)), AIdx(JV, AStr(bb)), AIdx(JV, AStr(<<108>>)
                AIdx(AIdx(AIdx(JV, AStr(<<108>>)), AInt(1)), AStr(a)) }
 JsonTypeExprs == { Call1("is_int", AIdx(JV, AStr(a))), Call1("is_float", AIdx(JV, AStr(a))), Call1("is_int", AIdx(JV, AStr(bb))), Call1("is_float", AIdx(JV, AStr(<<108>>))),
                    Call1("str", AIdx(JV, AStr(a))), Call1("strlen", AIdx(JV, AStr(bb))) }
-JKeys == {<<106, 49>>, <<106, 50>>, <<106, 51>>, <<106, 52>>, <<106, 53>>, <<106, 54>>, <<106, 55>>, <<106, 56>>, <<106, 57>>}
+JKeys == {<<106, 53, 53>>, <<106, 53, 54>>, <<106, 53, 55>>, <<106, 53, 56>>, <<106, 53, 57>>, <<106, 49>>, <<106, 50>>, <<106, 51>>, <<106, 52>>, <<106, 53>>, <<106, 54>>, <<106, 55>>, <<106, 56>>, <<106, 57>>}
 C10Json == { [st |-> Select(<<F(AKey, ""), F(e, "")>>, ABin("^=", AKey, AStr(<<106>>)), <<>>, <<>>, NoLim), sid |-> "J"] : e \in JsonExprs \cup JsonTypeExprs }
            \cup { [st |-> Select(<<F(AKey, ""), F(e, "")>>, ABin("=", AKey, AStr(k)), <<>>, <<>>, NoLim), sid |-> "J"] : e \in JsonExprs, k \in JKeys }
            \cup { [st |-> Select(<<>>, w, <<>>, <<>>, NoLim), sid |-> "J"] :
